@@ -45,13 +45,15 @@ let () =
   let kind_of name = match name with
     | "vsinfo" | "vsattach" | "vsattachn" | "vsdetach" -> Some "vs"
     | "vinfo" | "vattach" | "vattachn" | "vdetach" -> Some "vg"
-    | "sdinfo" | "sdselect" | "sdcreate" | "sdendaccess" -> Some "sds"
-    | "grinfo" | "grselect" | "grcreate" | "grendaccess" -> Some "ri"
+    | "sdinfo" | "sdreaddata" | "sdselect" | "sdcreate" | "sdendaccess" -> Some "sds"
+    | "grinfo" | "grreadimage" | "grreadlut" | "grselect" | "grcreate" | "grendaccess" -> Some "ri"
     | "inquire" | "startaccess" | "startread" | "startwrite" | "endaccess" | "hlcreate" | "hxcreate" | "hccreate" | "hmccreate" -> Some "aid"
     | "sdfileinfo" | "sdstart" | "sdend" -> Some "sd"
     | "grfileinfo" | "grstart" | "grend" -> Some "gr"
     | _ -> None in
-  let is_inquiry name = List.mem name ["vsinfo"; "vinfo"; "sdinfo"; "grinfo"; "inquire"; "sdfileinfo"; "grfileinfo"] in
+  (* inquiries, and whole-object reads (their result class and content hash): what a handle shows must not change across
+     refused requests *)
+  let is_inquiry name = List.mem name ["vsinfo"; "vinfo"; "sdinfo"; "grinfo"; "inquire"; "sdfileinfo"; "grfileinfo"; "grreadimage"; "sdreaddata"; "grreadlut"] in
   let st = ref init in
   let dead = ref false in
   List.iteri (fun i line ->
@@ -100,12 +102,17 @@ let () =
                 let ep = try Hashtbl.find epochs (k, slot) with Not_found -> 0 in
                 if is_inquiry name then begin
                   match rt with
-                  | "ok" :: ans ->
+                  | ("ok" | "fail") :: _ ->
+                    let ans = rt in
                     let ans = List.filter (fun s -> not (Stdlib.String.length s > 2 && Stdlib.String.sub s 0 2 = "w=")) ans in
                     let key = (name, k, slot, ep) in
-                    (match Hashtbl.find_opt answers key with
+                    let is_read = List.mem name ["grreadimage"; "sdreaddata"; "grreadlut"] in
+                    let verdict = (match Hashtbl.find_opt answers key with
                      | Some (a0, r0) when r0 = !readers -> if a0 = ans then 1 else 2   (* only mutators / inquiries in between *)
-                     | _ -> Hashtbl.replace answers key (ans, !readers); 1)
+                     | _ -> 1) in
+                    (* a whole-object read is itself a reading call (it may derive state): it ends the interval of the others *)
+                    if is_read then incr readers;
+                    Hashtbl.replace answers key (ans, !readers); verdict
                   | _ -> 0
                 end else begin
                   (match rt with "na" :: _ -> () | _ -> if not (is_mutator (coq_string name) (List.map (fun t -> z (num_of_tok t)) args)) then incr readers);
